@@ -273,6 +273,113 @@ def run(tier):
             v.distinct((n, mode, f))
             if len(v.cov["samples"]) < 16 and k == 1 and mode != "pair":
                 v.sample({"scenario": n, "failpoint": "%s %s#%d" % (mode, s, k), "records_after_fault": recs[at + 2:at + 5], "report": w.strip()})
+    # ---- SYSCALL-level refusals (strace -e inject, filtered with -P to the file in question): they also reach the calls libc makes on
+    # the library's behalf (the read() inside getdelim / fread, the write() inside fclose ...), which link-time wrapping cannot see
+    import shutil, subprocess, re
+    st = shutil.which("strace")
+    stats["syscall_injections"] = 0
+    if st:
+        plainb = common.build("plain")
+        big16 = os.path.join(wd, "c17-sys-16k.asm")
+        with open(big16, "w") as f:
+            f.write("mov rax, rbx ;..\n" * 1024)  # 16 KiB, 3072 bytes of code
+        first = long_prog(300, 1)
+        big = long_prog(20000, 7)
+        SYS = {
+            "Y1-file": (big16, ["new 0 int", "asm 0 %s" % common.hx(first), "file 0 %s" % big16, "sumoff 0", "sum 0 0 300", "del 0"], 2),
+            "Y2-filecnt": (big16, ["new 0 int", "asm 0 %s" % common.hx(first), "filecnt 0 8 %s" % big16, "sumoff 0", "sum 0 0 300", "del 0"], 2),
+            "Y3-bin": (os.path.join(wd, "c17-sys-out.bin"), ["new 0 int", "asm 0 %s" % common.hx(first), "bin 0 %s" % os.path.join(wd, "c17-sys-out.bin"), "dump 0 0 300", "sum 0 0 300", "del 0"], 2),
+            "Y4-bin-20k": (os.path.join(wd, "c17-sys-out20.bin"), ["new 0 int", "asm 0 %s" % common.hx(first), "asm 0 %s" % common.hx(big), "bin 0 %s" % os.path.join(wd, "c17-sys-out20.bin"), "dump 0 0 20300", "sum 0 0 300", "del 0"], 3),
+        }
+        CALLS = {"read": "EIO", "pread64": "EIO", "readv": "EIO", "openat": "EMFILE", "close": "EIO", "newfstatat": "EIO", "fstat": "EIO", "statx": "EIO", "lseek": "ESPIPE", "mmap": "ENOMEM",
+                 "write": "ENOSPC", "pwrite64": "ENOSPC", "writev": "ENOSPC", "ftruncate": "EIO", "fsync": "EIO", "fdatasync": "EIO", "rename": "EACCES", "renameat": "EACCES", "renameat2": "EACCES", "unlink": "EACCES",
+                 "fallocate": "ENOSPC", "copy_file_range": "EIO", "sendfile": "EIO"}
+
+        def srun(name, extra, tagx):
+            path, cmds, api_idx = SYS[name]
+            if name.startswith(("Y3", "Y4")):  # one output file per run: the runs execute in parallel
+                cmds = [c.replace(path, path + "." + tagx) for c in cmds]
+                path = path + "." + tagx
+            sd = os.path.join(wd, "sys-%s-%s" % (name, tagx))
+            os.makedirs(sd, exist_ok=True)
+            script, recs, log = os.path.join(sd, "s.txt"), os.path.join(sd, "r.txt"), os.path.join(sd, "strace.log")
+            with open(script, "w") as f:
+                f.write("\n".join(cmds) + "\n")
+            if name.startswith("Y3") or name.startswith("Y4"):
+                try:
+                    os.unlink(path)
+                except OSError:
+                    pass
+            argv = [st, "-f", "-o", log, "-P", path, "-e", "trace=" + ",".join(sorted(CALLS))] + extra + [plainb, script, recs]
+            try:
+                r = subprocess.run(argv, capture_output=True, timeout=120)
+            except subprocess.TimeoutExpired:
+                return None
+            try:
+                rl = open(recs).read().splitlines()
+            except OSError:
+                rl = []
+            try:
+                lg = open(log, errors="replace").read()
+            except OSError:
+                lg = ""
+            data = None
+            if name.startswith(("Y3", "Y4")):
+                try:
+                    data = open(path, "rb").read().hex()
+                except OSError:
+                    data = None
+            return {"rc": r.returncode, "records": rl, "log": lg, "file": data, "stderr": r.stderr.decode("latin-1")[-600:]}
+        sjobs = []
+        sref = {}
+        for name in sorted(SYS):
+            base0 = srun(name, [], "base")
+            if base0 is None or len(base0["records"]) < len(SYS[name][1]):
+                v.inconclusive.append({"why": "strace baseline run failed", "case": name})
+                continue
+            sref[name] = base0
+            for call in sorted(CALLS):
+                n = len(re.findall(r"^\d+\s+%s\(" % re.escape(call), base0["log"], re.M))
+                for k in range(1, n + 1):
+                    sjobs.append((name, call, k, ""))
+                    sjobs.append((name, call, k, "+"))
+        stats["syscalls_seen"] = {name: {c: len(re.findall(r"^\d+\s+%s\(" % re.escape(c), sref[name]["log"], re.M)) for c in CALLS if re.search(r"^\d+\s+%s\(" % re.escape(c), sref[name]["log"], re.M)} for name in sref}
+        with common.ThreadPoolExecutor(max_workers=common.NPROC) as ex:
+            souts = list(ex.map(lambda j: srun(j[0], ["-e", "inject=%s:error=%s:when=%d%s" % (j[1], CALLS[j[1]], j[2], j[3])], "%s-%d%s" % (j[1], j[2], "p" if j[3] else "")), sjobs))
+        for (name, call, k, plus), o in zip(sjobs, souts):
+            v.count()
+            case = {"key": "%s syscall %s#%d%s refused" % (name, call, k, plus), "fam": "fault", "scenario": name, "sym": call, "k": k, "mode": "syscall" + plus}
+            if o is None:
+                v.violation(case, "crash:hang", None)
+                continue
+            if "(INJECTED)" not in o["log"]:
+                v.inconclusive.append({"why": "injection did not fire", "case": case["key"]})
+                continue
+            path, cmds, api_idx = SYS[name]
+            recs, ref0 = o["records"], sref[name]["records"]
+            if len(recs) < len(cmds) or o["rc"] != 0:
+                v.violation(case, "crash:exit=%s" % o["rc"], "records %d of %d\n%s" % (len(recs), len(cmds), o["stderr"]))
+                continue
+            api = recs[api_idx].split()
+            reported = api[1] != "0"
+            bad = None
+            if not reported:
+                for i in range(api_idx, len(cmds)):
+                    if cmds[i].split()[0] in ("sumoff", "file", "filecnt") and recs[i].split()[1:5] != ref0[i].split()[1:5]:
+                        bad = ("silent-failure-changes-result", "after the refused %s no call failed, but %s differs from the fault-free run %s" % (call, recs[i], ref0[i]))
+                if not bad and name.startswith(("Y3", "Y4")):
+                    d = [recs[i].split()[1] for i in range(len(cmds)) if cmds[i].startswith("dump ")][0]
+                    if o["file"] != d:
+                        bad = ("bin-success-but-file-incomplete", "file has %s bytes, the code %d" % (None if o["file"] is None else len(o["file"]) // 2, len(d) // 2))
+            if not bad:
+                i = [j for j in range(len(cmds)) if cmds[j].startswith("sum 0 0 300")][0]
+                if recs[i] != ref0[i]:
+                    bad = ("earlier-code-corrupted", "%s != %s" % (recs[i], ref0[i]))
+            if bad:
+                v.violation(case, bad[0], bad[1])
+            else:
+                stats["syscall_injections"] += 1
+                v.distinct((name, "sys", call, k, plus))
     # the real ENOSPC path without injection
     for n, r in zip(names, base):
         if n == "S5-bin-devfull" and not r["crash"]:
@@ -286,7 +393,7 @@ def run(tier):
                      "on a caller buffer, twice, of an empty file, with growth of the code buffer during the file call, with short and interrupted reads, of a file longer than its stat size; "
                      "binary output to a file (nothing assembled, over an existing longer file, twice, 20 kB) and to /dev/full; fail-then-continue-then-bin) a counting run records how often each of {SYMS} is called after the arming "
                      "point (operations the library does not call have no failpoints), then one run per (operation, k) refuses exactly that call, one run refuses that call and all later ones, and runs with two refusals of different operations (quick: first calls; thorough: all pairs, plus 150 random fault schedules per scenario in which every call is refused with probability 2 / 10 / 30 %). Checked: no crash/sanitizer report, the failure is reported by NULL/EXIT_FAILURE (munmap: no crash only), "
-                     "[0,300) assembled earlier is intact, the instance can be destroyed, bin EXIT_SUCCESS only with a complete file").format(N=len(names), SYMS=", ".join(SYMS))
+                     "[0,300) assembled earlier is intact, the instance can be destroyed, bin EXIT_SUCCESS only with a complete file. Plus syscall-level refusals (strace -e inject, filtered to the input / output file with -P): every read / openat / close / fstat / mmap / write ... on that file, once and persistently, in file assembly of a 16 KiB file and binary output of 300 bytes / 20 kB - these also reach the calls libc makes internally (getdelim, stdio)").format(N=len(names), SYMS=", ".join(SYMS))
     v.cov["exhaustive"] = True
     v.cov.update(stats)
     return v.finish(None, stats["fired"] >= 15 and stats["fired"] == len(jobs), "failpoints fired %d of %d" % (stats["fired"], len(jobs)))
